@@ -60,7 +60,6 @@ theorem mem_preorder_root (T h : Nat) (m : List Bool) :
   rw [mem_preorder]
   constructor
   · rintro ⟨s, rfl, hs, ht⟩
-    simp only [List.nil_append]
     exact ⟨hs, by simpa using ht⟩
   · rintro ⟨hs, ht⟩
     exact ⟨m, by simp, hs, by simpa using ht⟩
